@@ -868,6 +868,22 @@ impl DbInner {
 		};
 
 		if let Some(mut commit) = commit {
+			// The trees this commit dereferences and their write locks. The locks are taken by
+			// the deferral check and held until the record is logged: a reader must not be able
+			// to lock a tree between the check and the dereference walk.
+			let mut dereferenced_trees = Vec::new();
+			if commit.changeset.check_for_deferral {
+				for (col, key_values) in commit.changeset.indexed.iter() {
+					for change in &key_values.node_changes {
+						if let NodeChange::DereferenceChildren(key, hash, _children) = change {
+							if let Some(tree) = self.get_tree(db, *col, key, false)? {
+								dereferenced_trees.push((*col, *hash, tree));
+							}
+						}
+					}
+				}
+			}
+			let mut tree_guards = HashMap::new();
 			if commit.changeset.check_for_deferral {
 				let mut defer = false;
 				'outer: for (col, key_values) in commit.changeset.indexed.iter() {
@@ -875,23 +891,21 @@ impl DbInner {
 						if let NodeChange::DereferenceChildren(_key, hash, _children) = change {
 							// Check if there are currently any locks on the tree. Will need to
 							// defer if there are.
-							let trees = self.trees.read();
-							if let Some(column_trees) = trees.get(&col) {
-								let mut tree_active = false;
-								if let Some(reader) = column_trees.readers.get(hash) {
-									let reader = reader.upgrade();
-									if let Some(reader) = reader {
-										if reader.is_locked() {
-											tree_active = true;
-										}
+							if !tree_guards.contains_key(&(*col, *hash)) {
+								let tree =
+									dereferenced_trees.iter().find(|(c, h, _)| c == col && h == hash);
+								if let Some((_, _, tree)) = tree {
+									match tree.try_write() {
+										Some(guard) => {
+											tree_guards.insert((*col, *hash), guard);
+										},
+										None => {
+											defer = true;
+											break 'outer
+										},
 									}
 								}
-								if tree_active {
-									defer = true;
-									break 'outer
-								}
 							}
-							drop(trees);
 
 							// Also check if there are any later commits in the queue that use this
 							// tree. Will need to defer if there are.
@@ -910,6 +924,7 @@ impl DbInner {
 					}
 				}
 				if defer {
+					tree_guards.clear();
 					let queue = self.commit_queue.lock();
 					let new_id = if queue.commits.len() > 0 {
 						// Generate a new id
@@ -955,12 +970,12 @@ impl DbInner {
 			let mut ops: u64 = 0;
 			for (c, key_values) in commit.changeset.indexed.iter() {
 				key_values.write_plan(
-					db,
 					*c,
 					&self.columns[*c as usize],
 					&mut writer,
 					&mut ops,
 					&mut reindex,
+					&tree_guards,
 				)?;
 			}
 
@@ -2370,12 +2385,12 @@ impl IndexedChangeSet {
 
 	fn write_plan(
 		&self,
-		db: &Arc<DbInner>,
 		col: ColId,
 		column: &Column,
 		writer: &mut crate::log::LogWriter,
 		ops: &mut u64,
 		reindex: &mut bool,
+		tree_guards: &HashMap<(ColId, Key), RwLockWriteGuard<'_, Box<dyn TreeReader + Send + Sync>>>,
 	) -> Result<()> {
 		let column = match column {
 			Column::Hash(column) => column,
@@ -2414,13 +2429,12 @@ impl IndexedChangeSet {
 						column.write_plan(&Operation::Dereference(*hash), writer)?;
 						log::debug!(target: "parity-db", "Dereferencing root, rc={}", rc);
 						if rc == 1 {
-							let tree = db.get_tree(db, col, key, false).unwrap();
-							if let Some(tree) = tree {
-								let guard = tree.write();
+							// The write lock was taken by the deferral check.
+							if let Some(guard) = tree_guards.get(&(col, *hash)) {
 								let mut num_removed = 0;
 								self.write_dereference_children_plan(
 									column,
-									&guard,
+									guard,
 									children,
 									&mut num_removed,
 									writer,
